@@ -9,14 +9,26 @@ import warnings
 import numpy as np
 
 from rpylib.model.levycopulamodel import LevyCopulaModel
-from rpylib.distribution.levycopula import ClaytonCopula, IndependentComponentsCopula, DependentComponentsCopula
+from rpylib.distribution.levycopula import LevyCopula, ClaytonCopula, IndependentComponentsCopula, DependentComponentsCopula
 
 from .. import zoo
 from ..common import w, wl, close, fr
 
 RULE = ("models: d in {2,3} (and d = 4, where `mass` is the general recursion itself) margins drawn from HEM / Merton (finite activity), VG / CGMY (infinite activity, every CGMY branch) with "
         "zoo.draw_params, or synthetic piecewise-constant TableMeasure margins (exact dyadic tail integrals); copulas: Clayton "
-        "(theta in [0.3,4] or exactly 1, eta in (0,1)), independent, dependent. rectangles: every sign pattern per coordinate "
+        "(theta in [0.3,4] or exactly 1, eta in (0,1)), independent, dependent; in d = 3 and d = 4 (main stream: every other d = 3 model "
+        "forced, the special coordinate at 0, 1, 2 in turn; d = 4 stream: every other model forced; 40 % of the remaining draws, also as "
+        "targets of `model.copula = ...` in the histories) USER-DEFINED copulas - subclasses of the library's abstract LevyCopula that "
+        "are NOT symmetric functions of their arguments: SuperpositionCopula as 'Clayton with coordinate-dependent weights' Clayton(alpha u) + "
+        "Independent((1 - alpha) u), dyadic alpha_i all different (asymmetric on finite arguments AND in its pair margins; also in d = 2, a "
+        "quarter of the d = 2 models), NestedClaytonCopula (one pair coupled with theta1 >= theta0, all other pairs with "
+        "theta0: asymmetric on finite arguments), BlockCopula (independent blocks of coordinates, each block coupled by a Clayton "
+        "or the completely dependent copula: pair + single in d = 3; pair + pair, triple + single, pair + single + single in d = 4, "
+        "random assignment of the coordinates) and MixtureCopula (dyadic weights; block copula + library copula or + a block copula of "
+        "another partition); not in the streams that put end points exactly at 0. For every copula c12.by_definition judges "
+        "margin_tail_integral(I, x) against the I-margin of model.copula BY DEFINITION (each value in the slot of its own coordinate) and "
+        "mass / _mass_nd of full and sub-family rectangles against the mass written out from the definitions (mass_by_definition); "
+        "c12.submargin (d = 3, 4) builds the |I|-dimensional model with the closed-form I-margin copula (restrict_cop). rectangles: every sign pattern per coordinate "
         "(negative side, positive side, straddling 0) forced in turn, end points log-uniform in [1e-3,1] or dyadic, +-inf ends "
         "with probability 0.12; dedicated sub-streams put end points / split points exactly at 0 and build boxes containing the "
         "origin. index subsets: all non-empty I of the coordinates. operation histories (d = 2, 3, 4): ONE live model object on which "
@@ -41,6 +53,9 @@ NOT_PROVED = [
     "(massNd_additive_split, induction on the list of coordinates), and for the coded 2-d / 3-d formulas; 'a coordinate over the whole line can be "
     "erased' likewise for every d (massNd_whole_line). For d >= 4 the implementation is tied to the model by the d = 4 correspondence stream only",
     "mass = integral of the implied joint density (x_first_derivative) is checked by quadrature only",
+    "Family3 / the I-margin hypothesis (sub-family tail integrals ARE the I-margins of F, each argument in its own slot) is a hypothesis of "
+    "the Lean theorems; on the implementation it is oracle-checked by c12.by_definition / c12.submargin / c12.history, with copulas that "
+    "are not symmetric functions so that a misplaced argument is visible",
     "inverse_tail_integral is a bracketing root search (toms748): only its contract is oracle-checked",
     "that the closed-form marginal integrals are measures (additive, non-negative) is C09, assumed here through the abstract family U",
     "the Lean model is a pure function of (marginal tail integrals, copula): that the implementation's answers depend only on the "
@@ -48,6 +63,11 @@ NOT_PROVED = [
     "oracle-checked on generated operation histories (c12.history and the ordinary probes run on the live object), not proved",
 ]
 ASSUMPTIONS = ["rectangles are half-open (a,b] with a < b in every coordinate",
+               "SuperpositionCopula (Levy copula of a sum of independent Levy processes with re-weighted margins) / NestedClaytonCopula (lower-tail limit of the nested Archimedean Clayton copula, theta0 <= theta1; mixed partial derivative >= 0 "
+               "checked at 150 digits) / BlockCopula / MixtureCopula (defined in this file through rpylib's public abstract class LevyCopula) are Levy copulas: "
+               "independent blocks (Kallsen-Tankov Prop. 4.1 / Thm 4.4) and convex combinations; groundedness, uniform 1-d margins and "
+               "d-increasingness of the concrete objects were checked with C11's oracles (d = 3, 4; 11200 random cases, no failure); their "
+               "tie to M goes through massT (M fed the implementation's own table of tail integrals), not massC",
                "histories re-configure a live model only through `model.copula` and the copula's own parameters (valid values); re-assigning "
                "`model.models` (the ctor derives dimension / marginal measures from it once) or truncating the margins is outside this check",
                "the implied joint density is read as nu_1(x) nu_2(y) * sign(u1 u2) * x_first_derivative(U_1(x), U_2(y)) (see C11: the code "
@@ -104,10 +124,173 @@ def make_margin(ms):
     return zoo.make_levy(ms["fam"], ms["params"])
 
 
+# ---- user-defined Levy copulas (the property speaks of EVERY Levy-copula model; `LevyCopula` is the library's public abstract class).
+# Every copula the library ships is a symmetric function of its arguments, so an implementation that puts a value into the wrong
+# coordinate slot of F cannot be seen with them.  These two are not symmetric (same definitions in c19.py; zoo.py is shared).
+class BlockCopula(LevyCopula):
+    """Levy copula of a Levy process whose blocks of coordinates B_1, .., B_m (a partition of 0..d-1) are independent of each other, the
+    coordinates inside block k being coupled by the Levy copula C_k (the identity for a single coordinate):
+        F(u) = sum_k C_k(u_{B_k}) * prod_{i not in B_k} 1{u_i = +inf},     F(u) = 0 if some u_i = 0
+    (Kallsen-Tankov 2006, Prop. 4.1 / Thm 4.4 written for blocks: the Levy measure sits on the coordinate subspaces of the blocks).  It is
+    grounded, d-increasing and has uniform margins (checked with C11's oracles, .work/fix-c19e/validate.py); its I-margin is the block
+    copula of the blocks cut down to I: finite arguments taken from two different blocks give 0."""
+
+    def __init__(self, blocks, parts):
+        self.blocks = [list(B) for B in blocks]
+        self.parts = list(parts)
+        self.d = sum(len(B) for B in self.blocks)
+        if sorted(i for B in self.blocks for i in B) != list(range(self.d)):
+            raise ValueError("blocks must partition 0..d-1")
+        self.rest = [[i for i in range(self.d) if i not in B] for B in self.blocks]
+
+    def __repr__(self):
+        return f"BlockCopula(blocks={self.blocks}, parts={self.parts})"
+
+    def __call__(self, us):
+        us = np.asarray(us, dtype=float)
+        if us.size != self.d:
+            raise ValueError(f"BlockCopula of dimension {self.d} evaluated at {us.size} arguments")
+        if np.any(us == 0):
+            return 0.0
+        res = 0.0
+        for B, C, R in zip(self.blocks, self.parts, self.rest):
+            if all(us[i] == INF for i in R):
+                res += float(us[B[0]]) if len(B) == 1 else float(C(us[B]))
+        return res
+
+
+class MixtureCopula(LevyCopula):
+    """convex combination of Levy copulas of the same dimension (groundedness, d-increasingness and uniform margins are preserved by
+    convex combinations); the Levy measure of the model is the same combination of the Levy measures of the models built with the parts"""
+
+    def __init__(self, weights, parts):
+        if not (abs(sum(weights) - 1.0) < 1e-15 and all(x > 0 for x in weights)):
+            raise ValueError("weights must be positive and sum to 1")
+        self.weights, self.parts = list(weights), list(parts)
+
+    def __repr__(self):
+        return f"MixtureCopula(weights={self.weights}, parts={self.parts})"
+
+    def __call__(self, us):
+        us = np.asarray(us, dtype=float)
+        if np.any(us == 0):
+            return 0.0
+        return float(sum(x * float(C(us)) for x, C in zip(self.weights, self.parts)))
+
+
+class NestedClaytonCopula(LevyCopula):
+    """partially nested Clayton Levy copula: G(x) = ((x_i^-t1 + x_j^-t1)^(t0/t1) + sum_{k not in pair} x_k^-t0)^(-1/t0) on [0,inf]^d with
+    0 < t0 <= t1 (lower-tail limit of the nested Archimedean Clayton copula, valid for t0 <= t1: the mixed partial derivative is >= 0,
+    checked at 150 digits in d = 3, 4), extended to all orthants the way the library's Clayton is:
+        F(u) = 2^(2-d) G(|u|) (eta 1{prod u >= 0} - (1-eta) 1{prod u < 0}).
+    NOT symmetric on FINITE arguments either: the pair (i, j) is coupled with t1, every other pair with t0.  Its proper margins are known in
+    closed form: Clayton(t1, 1/2) for I = pair, Clayton(t0, 1/2) for any other pair, nested with eta = 1/2 when I contains the pair."""
+
+    def __init__(self, pair, theta0, theta1, eta):
+        if not (0 < theta0 <= theta1 and 0.0 <= eta <= 1.0 and len(pair) == 2):
+            raise ValueError("expected 0 < theta0 <= theta1, eta in [0,1], a pair of coordinates")
+        self.pair, self.theta0, self.theta1, self.eta = list(pair), theta0, theta1, eta
+
+    def __repr__(self):
+        return f"NestedClaytonCopula(pair={self.pair}, theta0={self.theta0}, theta1={self.theta1}, eta={self.eta})"
+
+    def __call__(self, us):
+        us = np.asarray(us, dtype=float)
+        if np.any(us == 0):
+            return 0.0
+        x = np.abs(us)
+        i, j = self.pair
+        with np.errstate(all="ignore"):
+            inner = (x[i] ** -self.theta1 + x[j] ** -self.theta1) ** (self.theta0 / self.theta1)
+            outer = inner + sum(x[k] ** -self.theta0 for k in range(us.size) if k not in self.pair)
+            g = outer ** (-1.0 / self.theta0)
+        odd = int(np.sum(us < 0)) % 2
+        return float(2.0 ** (2 - us.size) * g * (self.eta if odd == 0 else -(1.0 - self.eta)))
+
+
+class SuperpositionCopula(LevyCopula):
+    """F(u) = sum_k C_k(alpha^k * u) with positive coordinate weights alpha^k_i, sum_k alpha^k_i = 1 for every i: the Levy copula of a sum of
+    independent Levy processes X^k whose marginal tail integrals are alpha^k_i U_i and whose Levy copulas are C_k (tail integrals add up).
+    Used as 'Clayton with coordinate-dependent weights': Clayton(alpha * u) + Independent((1 - alpha) * u) - NOT symmetric on finite
+    arguments, and its pair margins Clayton_{theta,1/2}(alpha_i u_i, alpha_j u_j) are not symmetric either; valid in d = 2 as well."""
+
+    def __init__(self, scales, parts):
+        self.scales = [np.asarray(a, dtype=float) for a in scales]
+        self.parts = list(parts)
+        if not (np.all(sum(self.scales) == 1.0) and all(np.all(a > 0) for a in self.scales)):
+            raise ValueError("scales must be positive and sum to 1 in every coordinate")
+
+    def __repr__(self):
+        return f"SuperpositionCopula(scales={[[float(x) for x in a] for a in self.scales]}, parts={self.parts})"
+
+    def __call__(self, us):
+        us = np.asarray(us, dtype=float)
+        if np.any(us == 0):
+            return 0.0
+        return float(sum(float(C(a * us)) for a, C in zip(self.scales, self.parts)))
+
+
+def weighted_clayton(alpha, theta, eta):
+    al = np.asarray(alpha, dtype=float)
+    return SuperpositionCopula([al, 1.0 - al], [ClaytonCopula(theta=theta, eta=eta), BlockCopula([[i] for i in range(al.size)], [None] * al.size)])
+
+
+LIBRARY_COPULAS = ("clayton", "independent", "dependent")
+
+
 def make_cop(cd):
-    if cd["cop"] == "clayton":
+    k = cd["cop"]
+    if k == "clayton":
         return ClaytonCopula(theta=cd["theta"], eta=cd["eta"])
-    return IndependentComponentsCopula() if cd["cop"] == "independent" else DependentComponentsCopula()
+    if k == "independent":
+        return IndependentComponentsCopula()
+    if k == "dependent":
+        return DependentComponentsCopula()
+    if k == "block":
+        return BlockCopula(cd["blocks"], [None if p is None else make_cop(p) for p in cd["parts"]])
+    if k == "mix":
+        return MixtureCopula(cd["weights"], [make_cop(p) for p in cd["parts"]])
+    if k == "nested":
+        return NestedClaytonCopula(cd["pair"], cd["theta0"], cd["theta1"], cd["eta"])
+    if k == "wclayton":
+        return weighted_clayton(cd["alpha"], cd["theta"], cd["eta"])
+    raise ValueError(f"unknown copula {k}")
+
+
+def restrict_cop(cd, d, I):
+    """descriptor of the I-margin (|I| >= 2, coordinates renumbered 0..|I|-1 in increasing order) of the d-dimensional copula `cd`, known
+    in closed form: every proper margin of a Clayton(theta, eta) is Clayton(theta, 1/2) (2^(2-d) (eta + (1-eta)) halves per erased
+    coordinate); independent / dependent stay what they are; a block copula is cut down block by block; a mixture term by term"""
+    I = list(I)
+    if len(I) == d:
+        return cd
+    k = cd["cop"]
+    if k == "clayton":
+        return dict(cd, eta=0.5)
+    if k in ("independent", "dependent"):
+        return dict(cd)
+    if k == "mix":
+        return dict(cd, parts=[restrict_cop(p, d, I) for p in cd["parts"]])
+    if k == "wclayton":
+        return dict(cd, alpha=[cd["alpha"][i] for i in I], eta=0.5)
+    if k == "nested":
+        if not all(i in I for i in cd["pair"]):
+            return dict(cop="clayton", theta=cd["theta0"], eta=0.5)
+        if len(I) == 2:
+            return dict(cop="clayton", theta=cd["theta1"], eta=0.5)
+        return dict(cd, pair=[I.index(i) for i in cd["pair"]], eta=0.5)
+    blocks, parts = [], []
+    for B, p in zip(cd["blocks"], cd["parts"]):
+        J = [i for i in B if i in I]
+        if not J:
+            continue
+        blocks.append([I.index(i) for i in J])
+        parts.append(None if len(J) == 1 else restrict_cop(p, len(B), [B.index(i) for i in J]))
+    if len(blocks) == 1:
+        return parts[0]
+    if all(p is None for p in parts):
+        return dict(cop="independent")
+    return dict(cop="block", blocks=blocks, parts=parts)
 
 
 _CACHE = {}
@@ -339,9 +522,18 @@ def p_model_table(ctx, inp):
 
 
 def lean_cop_name(cd):
+    """name of the copula in Drivers/C12 (massC computes the sub-family tail integrals itself), None if M has no closed form for it"""
     if cd["cop"] == "clayton":
         return "clayton1" if cd["theta"] == 1.0 else None
-    return "indep" if cd["cop"] == "independent" else "dep"
+    return {"independent": "indep", "dependent": "dep"}.get(cd["cop"])
+
+
+def p_model(ctx, inp, exact):
+    """C: the exact stream ties through massC where M knows the copula by name; everything else (general theta, user-defined copulas)
+    through massT, M fed with the implementation's own table of tail integrals"""
+    if exact and lean_cop_name(inp["spec"]["cop"]) is not None:
+        return p_model_exact(ctx, inp)
+    return p_model_table(ctx, inp)
 
 
 @guarded("c12.fast_vs_general")
@@ -463,15 +655,11 @@ def p_margin(ctx, inp):
                                                "fast": got, "general": gen, "marginal": want}, cls=classify(spec, list(range(d)), lo, hi))
 
 
-def sub_copula(cd):
-    """the 2-margin of the 3-d copula as a 2-d copula of the same family (Clayton: eta' = 1/2 because 2^(2-3)(eta + (1-eta)) = 1/2)"""
-    return dict(cd, eta=0.5) if cd["cop"] == "clayton" else dict(cd)
-
-
 @guarded("c12.submargin")
 def p_submargin(ctx, inp):
-    """3-d model: the mass of the (i,j) sub-family = mass of the whole-line rectangle in the third coordinate
-    = mass of the 2-d model built from margins i, j and the {i,j}-margin of the copula"""
+    """d-dimensional model, sub-family I (2 <= |I| < d): the mass of the sub-family = mass of the whole-line rectangle in the other
+    coordinates = mass of the |I|-dimensional model built from the margins of I and the I-margin of the copula, known in closed form
+    (restrict_cop: Clayton eta' = 1/2; block copula: the coupled pair keeps its copula, a pair taken from two blocks is independent)"""
     spec, I, a, b = inp["spec"], inp["I"], inp["a"], inp["b"]
     model = model_of(inp)
     cls = classify(spec, I, a, b)
@@ -483,10 +671,11 @@ def p_submargin(ctx, inp):
     for j, i in enumerate(I):
         lo[i], hi[i] = a[j], b[j]
     whole = mass_fast(model, list(range(d)), lo, hi)
-    spec2 = dict(margins=[spec["margins"][i] for i in I], cop=sub_copula(spec["cop"]))
+    spec2 = dict(margins=[spec["margins"][i] for i in I], cop=restrict_cop(spec["cop"], d, I))
     two = mass_fast(get_model(spec2), list(range(len(I))), a, b)
     sc = scale_of(model, I, a, b)
-    ctx.count("c12.submargin", inp, branch=f"I{len(I)}")
+    cls["I"] = "".join(map(str, I))
+    ctx.count("c12.submargin", inp, branch=f"d{d}:I{len(I)}:{spec['cop']['cop']}")
     if not (abs(sub - whole) <= 1e-9 * sc and abs(sub - two) <= 1e-9 * sc):
         ctx.fail("oracle", "c12.submargin", inp, {"what": "sub-family mass != whole-line mass != mass under the I-margin copula",
                                                   "sub": sub, "whole_line": whole, "two_d_model": two}, cls=cls)
@@ -513,6 +702,74 @@ def i_margin_by_definition(model, I, pt):
 
 def same_float(x, y, sc):
     return (math.isnan(x) and math.isnan(y)) or x == y or abs(x - y) <= 1e-9 * sc
+
+
+def mass_by_definition(model, I, a, b):
+    """mass of prod_{j in I} (a_j, b_j] (not containing the origin) under the I-margin of the Levy measure, from the definitions only:
+    (a,b] = (a,inf) \\ (b,inf) on the positive side, (-inf,b] \\ (-inf,a] on the negative side, R \\ (-inf,a] \\ (b,inf) when it straddles 0
+    (R: the coordinate is erased); the mass of an orthant prod_{j in J} I(x_j) is prod sgn(x_j) * F^J(U_j(x_j), j in J), F^J the J-margin
+    of the copula the model holds now BY DEFINITION - every value in the slot of ITS OWN coordinate, the others at +-inf with sign."""
+    per = []
+    for x, y in zip(a, b):
+        if x < 0 < y:
+            per.append([(1.0, None), (-1.0, x), (-1.0, y)])
+        elif x >= 0:
+            per.append([(1.0, x), (-1.0, y)])
+        else:
+            per.append([(1.0, y), (-1.0, x)])
+    tot = 0.0
+    for choice in itertools.product(*per):
+        J = [(i, x) for i, (_, x) in zip(I, choice) if x is not None]
+        if not J:
+            raise ValueError("rectangle contains the origin")
+        if any(math.isinf(x) for _, x in J):
+            continue                                    # empty orthant
+        coef = 1.0
+        for c, _ in choice:
+            coef *= c
+        for _, x in J:
+            coef *= 1.0 if x >= 0 else -1.0
+        if len(J) == 1:
+            val = float(model.marginal_tail_integral(J[0][0], J[0][1]))
+        else:
+            val = i_margin_by_definition(model, [i for i, _ in J], [x for _, x in J])
+        tot += coef * val
+    return tot
+
+
+@guarded("c12.by_definition")
+def p_by_definition(ctx, inp):
+    """'margin masses of sub-families of coordinates agree with the I-margins of the copula', for every copula (library and user-defined)
+    and every index subset: (i) margin_tail_integral(I, x) at the corners of the rectangle = I-margin BY DEFINITION of model.copula at the
+    marginal tail integrals, (ii) mass (public entry point and general recursion) = mass_by_definition"""
+    spec, I, a, b = inp["spec"], inp["I"], inp["a"], inp["b"]
+    model = model_of(inp)
+    cls = classify(spec, I, a, b)
+    if cls["contains_origin"] or cls["zero_end"]:
+        return
+    d = model._dimension
+    cls["I"] = "".join(map(str, I))
+    ctx.count("c12.by_definition", inp, branch=f"d{d}:I{len(I)}:{spec['cop']['cop']}")
+    if 2 <= len(I) < d:
+        for pt in itertools.product(*[(x, y) for x, y in zip(a, b)]):
+            if any(math.isinf(x) for x in pt):
+                continue
+            got = U(model, I, pt)
+            want = i_margin_by_definition(model, I, pt)
+            sc = sum(abs(float(model.marginal_tail_integral(i, x))) for i, x in zip(I, pt)) + 1e-300
+            if not same_float(got, want, sc):
+                ctx.fail("oracle", "c12.by_definition", inp, {"what": "margin_tail_integral(I, x) is not the I-margin of the copula (each value in "
+                                                                      "the slot of its own coordinate, the others at +-inf with sign)",
+                                                              "x": list(pt), "margin_tail_integral": got, "I_margin_by_definition": want,
+                                                              "copula": repr(model.copula)}, cls=cls)
+                return
+    want = mass_by_definition(model, I, a, b)
+    f, g = mass_fast(model, I, a, b), mass_general(model, I, a, b)
+    sc = scale_of(model, I, a, b)
+    if not (same_float(f, want, sc) and same_float(g, want, sc)):
+        ctx.fail("oracle", "c12.by_definition", inp, {"what": "rectangle mass != mass written out from the definitions (orthant masses = signed I-margins "
+                                                              "of the copula at the marginal tail integrals)", "mass": f, "general": g,
+                                                      "by_definition": want, "scale": sc, "copula": repr(model.copula)}, cls=cls)
 
 
 @guarded("c12.history")
@@ -646,7 +903,7 @@ def p_density(ctx, inp):
 PROBES = {"c12.model.table": p_model_table, "c12.model.exact": p_model_exact, "c12.fast_vs_general": p_fast_vs_general,
           "c12.nonneg": p_nonneg, "c12.additivity": p_additivity, "c12.margin": p_margin, "c12.submargin": p_submargin,
           "c12.inverse_tail": p_inverse_tail, "c12.density": p_density, "c12.whole_line_nd": p_whole_line_nd,
-          "c12.additivity_nd": p_additivity_nd, "c12.history": p_history}
+          "c12.additivity_nd": p_additivity_nd, "c12.history": p_history, "c12.by_definition": p_by_definition}
 
 
 # ------------------------------------------------------------------------------------------------ generation
@@ -661,24 +918,107 @@ def draw_table_margin(rng):
     return dict(fam="table", knots=knots, heights=heights)
 
 
-def draw_cop(rng, exact=False):
+def draw_clayton(rng, exact=False):
+    theta = 1.0 if exact else round(math.exp(rng.uniform(math.log(0.3), math.log(4.0))), 3)
+    eta = rng.randint(1, 15) / 16 if exact else round(rng.uniform(0.05, 0.95), 3)
+    return dict(cop="clayton", theta=theta, eta=eta)
+
+
+def draw_block(rng, d, exact=False, special=None):
+    """block copula in d >= 3 that is NOT a symmetric function: d = 3: a coupled pair + one independent coordinate `special` (each of the
+    three placements); d = 4: pair + pair, triple + single, pair + single + single, over a random assignment of the coordinates"""
+    order = list(range(d))
+    rng.shuffle(order)
+    if special is not None:
+        order.remove(special)
+        order.append(special)                          # the last (single) block is the special coordinate
+    sizes = [2, 1] if d == 3 else rng.choice([[2, 2], [3, 1], [2, 1, 1]]) if d == 4 else [d - 1, 1]
+    blocks, pos = [], 0
+    for n in sizes:
+        blocks.append(sorted(order[pos:pos + n]))
+        pos += n
+    parts = [None if len(B) == 1 else (draw_clayton(rng, exact) if rng.random() < 0.8 else dict(cop="dependent")) for B in blocks]
+    return dict(cop="block", blocks=blocks, parts=parts)
+
+
+def draw_nested(rng, d, exact=False, special=None):
+    """nested Clayton: one pair coupled with theta1 >= theta0; d = 3: `special` is the coordinate outside the pair"""
+    if d == 3 and special is not None:
+        pair = [i for i in range(3) if i != special]
+    else:
+        pair = sorted(rng.sample(range(d), 2))
+    if exact:
+        return dict(cop="nested", pair=pair, theta0=1.0, theta1=rng.choice([2.0, 3.0]), eta=rng.randint(1, 15) / 16)
+    t0 = round(math.exp(rng.uniform(math.log(0.3), math.log(2.0))), 3)
+    return dict(cop="nested", pair=pair, theta0=t0, theta1=round(t0 * rng.uniform(1.3, 4.0), 3), eta=round(rng.uniform(0.05, 0.95), 3))
+
+
+def draw_wclayton(rng, d, exact=False, special=None):
+    """Clayton with coordinate-dependent dyadic weights, all different; `special` carries the smallest one"""
+    al = sorted(rng.sample(range(1, 8), d))
+    rest = al[1:]
+    rng.shuffle(rest)
+    k = rng.randrange(d) if special is None else special
+    alpha = rest[:k] + [al[0]] + rest[k:]
+    return dict(draw_clayton(rng, exact), cop="wclayton", alpha=[x / 8 for x in alpha])
+
+
+def draw_nonexchangeable(rng, d, exact=False, special=None):
+    """a copula of dimension d >= 3 that is not a symmetric function of its arguments: a block copula (asymmetric through the +-inf
+    corners only: finite arguments from two blocks give 0), a nested Clayton copula (asymmetric on finite arguments too), or a mixture
+    (dyadic weights) of a block copula with a library copula / a nested Clayton / a block copula of another partition"""
+    k = rng.random()
+    if d == 2:              # blocks / nesting need d >= 3; the weighted Clayton is not symmetric in d = 2 either
+        wc = draw_wclayton(rng, d, exact, special)
+        if k < 0.7:
+            return wc
+        n = rng.randint(1, 7)
+        return dict(cop="mix", weights=[n / 8, 1 - n / 8], parts=[wc, draw_cop(rng, exact)])
+    if k < 0.25:
+        return draw_wclayton(rng, d, exact, special)
+    if k < 0.45:
+        return draw_nested(rng, d, exact, special)
+    blk = draw_block(rng, d, exact, special)
+    if k < 0.7:
+        return blk
+    n = rng.randint(1, 7)
+    if k < 0.92:
+        x = rng.random()
+        other = (draw_clayton(rng, exact) if x < 0.35 else draw_nested(rng, d, exact) if x < 0.6 else draw_wclayton(rng, d, exact) if x < 0.85
+                 else dict(cop=rng.choice(["independent", "dependent"])))
+        return dict(cop="mix", weights=[n / 8, 1 - n / 8], parts=[blk, other])
+    other = draw_block(rng, d, exact)
+    for _ in range(8):
+        if other["blocks"] != blk["blocks"]:
+            break
+        other = draw_block(rng, d, exact)
+    return dict(cop="mix", weights=[n / 8, 1 - n / 8], parts=[blk, other])
+
+
+P_NONEXCH = 0.4
+
+
+def draw_cop(rng, exact=False, d=None, special=None):
+    """d given and >= 3: with probability P_NONEXCH a user-defined copula that is not a symmetric function of its arguments"""
+    if d is not None and d >= 2 and (special is not None or rng.random() < (P_NONEXCH if d >= 3 else 0.25)):
+        return draw_nonexchangeable(rng, d, exact, special)
     k = rng.random()
     if k < 0.6:
-        theta = 1.0 if exact else round(math.exp(rng.uniform(math.log(0.3), math.log(4.0))), 3)
-        eta = rng.randint(1, 15) / 16 if exact else round(rng.uniform(0.05, 0.95), 3)
-        return dict(cop="clayton", theta=theta, eta=eta)
+        return draw_clayton(rng, exact)
     return dict(cop="independent") if k < 0.8 else dict(cop="dependent")
 
 
-def draw_spec(rng, d, exact=False):
+def draw_spec(rng, d, exact=False, nonexch=False, special=None):
+    """nonexch: the stream admits user-defined copulas (not the streams that put end points exactly at 0: the value of F at an
+    all-infinite corner is a convention there)"""
     if exact:
-        return dict(margins=[draw_table_margin(rng) for _ in range(d)], cop=draw_cop(rng, exact=True))
+        return dict(margins=[draw_table_margin(rng) for _ in range(d)], cop=draw_cop(rng, True, d if nonexch else None, special))
     ms = []
     for _ in range(d):
         fam = rng.choice(["hem", "merton", "vg", "cgmy"])
         params = {} if rng.random() < 0.3 else zoo.draw_params(rng, fam)
         ms.append(dict(fam=fam, params=params))
-    return dict(margins=ms, cop=draw_cop(rng))
+    return dict(margins=ms, cop=draw_cop(rng, False, d if nonexch else None, special))
 
 
 def draw_point(rng, sign, exact):
@@ -727,7 +1067,7 @@ def subsets(d):
     return [list(s) for k in range(1, d + 1) for s in itertools.combinations(range(d), k)]
 
 
-def draw_mutation(rng, cur, exact):
+def draw_mutation(rng, cur, exact, d=None):
     """one re-configuration of the live object: the public attribute `copula` re-assigned (same or other family), or - Clayton - the
     parameters of the copula object it holds edited in place (theta, eta or both)"""
     if cur["cop"] == "clayton" and rng.random() < 0.4:
@@ -741,11 +1081,11 @@ def draw_mutation(rng, cur, exact):
             if which != "theta":
                 ed["eta"] = round(rng.uniform(0.05, 0.95), 3)
         return ["edit", ed]
-    new = draw_cop(rng, exact)
+    new = draw_cop(rng, exact, d)
     for _ in range(8):
         if new != cur:
             break
-        new = draw_cop(rng, exact)
+        new = draw_cop(rng, exact, d)
     return ["copula", new]
 
 
@@ -773,13 +1113,13 @@ def draw_evaluations(rng, d, exact):
 
 
 def draw_history(rng, d, exact):
-    spec0 = draw_spec(rng, d, exact)
+    spec0 = draw_spec(rng, d, exact, nonexch=True)
     cur = dict(spec0["cop"])
     ops = []
     for _ in range(rng.choice([1, 1, 2, 3])):
         if rng.random() < 0.9:      # (a mutation right after construction / right after another one is a history too)
             ops += draw_evaluations(rng, d, exact)
-        mut = draw_mutation(rng, cur, exact)
+        mut = draw_mutation(rng, cur, exact, d)
         ops.append(mut)
         cur = dict(mut[1]) if mut[0] == "copula" else dict(cur, **mut[1])
     if rng.random() < 0.5:
@@ -813,8 +1153,9 @@ def run_histories(ctx, oracle_only, factor):
             p_history(ctx, inp)
             p_fast_vs_general(ctx, inp)
             p_nonneg(ctx, inp)
+            p_by_definition(ctx, inp)
             if not oracle_only and (exact or rng.random() < 0.3):
-                (p_model_exact if exact else p_model_table)(ctx, inp)
+                p_model(ctx, inp, exact)
             k = rng.randrange(d)
             c = split_point(rng, a[k], b[k], exact)
             p_additivity(ctx, dict(inp, k=k, c=c))
@@ -828,10 +1169,11 @@ def run_histories(ctx, oracle_only, factor):
                 p_fast_vs_general(ctx, sub)
                 if not all(straddles(x, y) for x, y in zip(ai, bi)):
                     p_nonneg(ctx, sub)
-                    if d == 3 and len(Is) == 2:
+                    p_by_definition(ctx, sub)
+                    if d >= 3 and len(Is) >= 2:
                         p_submargin(ctx, sub)
                 if not oracle_only and exact and rng.random() < 0.5:
-                    p_model_exact(ctx, sub)
+                    p_model(ctx, sub, exact)
         for k in range(d):
             lo, hi = draw_side(rng, rng.choice("-+"), exact, p_inf=0.2)
             p_margin(ctx, dict(spec=spec, hist=hist, k=k, a=lo, b=hi))
@@ -844,7 +1186,9 @@ def run(ctx, oracle_only=False, factor=1):
     for rep in range(reps):
         for d in (2, 3):
             exact = (rep % 2 == 1)
-            spec = draw_spec(rng, d, exact)
+            # d = 3: every other model carries a copula that is NOT a symmetric function of its arguments, the special coordinate (the
+            # independent name of the block copula) in each of the three placements in turn
+            spec = draw_spec(rng, d, exact, nonexch=True, special=((rep // 2) % d if rep % 4 < 2 else None))
             for pats in itertools.product("-+0", repeat=d):
                 I = list(range(d))
                 a, b = draw_rect(rng, pats, exact)
@@ -852,13 +1196,15 @@ def run(ctx, oracle_only=False, factor=1):
                 origin = all(p == "0" for p in pats)
                 p_fast_vs_general(ctx, inp)
                 if not oracle_only:
-                    if exact:
+                    named = exact and lean_cop_name(spec["cop"]) is not None
+                    if named:
                         p_model_exact(ctx, inp)
-                    if not exact or rng.random() < 0.3:
+                    if not named or rng.random() < 0.3:
                         p_model_table(ctx, inp)
                 if origin:
                     continue
                 p_nonneg(ctx, inp)
+                p_by_definition(ctx, inp)
                 k = rng.randrange(d)
                 p_additivity(ctx, dict(inp, k=k, c=split_point(rng, a[k], b[k], exact)))
                 # sub-families of coordinates
@@ -867,8 +1213,9 @@ def run(ctx, oracle_only=False, factor=1):
                 sub = dict(spec=spec, I=Is, a=ai, b=bi)
                 p_fast_vs_general(ctx, sub)
                 if not oracle_only and rng.random() < 0.5:
-                    (p_model_exact if exact else p_model_table)(ctx, sub)
+                    p_model(ctx, sub, exact)
                 if d == 3 and len(Is) == 2:
+                    p_by_definition(ctx, sub)
                     p_submargin(ctx, sub)
             # margins: one coordinate on one side, the others over the whole line
             for k in range(d):
@@ -882,7 +1229,7 @@ def run(ctx, oracle_only=False, factor=1):
     for rep in range(ctx.n(6, 40) * factor):
         d = 4
         exact = (rep % 2 == 1)
-        spec = draw_spec(rng, d, exact)
+        spec = draw_spec(rng, d, exact, nonexch=True, special=(rep // 2 % 4 if rep % 2 == 0 else None))
         I = list(range(d))
         pats_list = [tuple(rng.choice("-+0") for _ in range(d)) for _ in range(5)] + [tuple(rng.choice("-+") for _ in range(d))]
         for pats in pats_list:
@@ -891,8 +1238,9 @@ def run(ctx, oracle_only=False, factor=1):
             a, b = draw_rect(rng, pats, exact)
             inp = dict(spec=spec, I=I, a=a, b=b)
             if not oracle_only:
-                (p_model_exact if exact else p_model_table)(ctx, inp)
+                p_model(ctx, inp, exact)
             p_nonneg(ctx, inp)
+            p_by_definition(ctx, inp)
             k = rng.randrange(d)
             c = split_point(rng, a[k], b[k], exact)
             p_additivity(ctx, dict(inp, k=k, c=c))
@@ -900,6 +1248,10 @@ def run(ctx, oracle_only=False, factor=1):
             p_whole_line_nd(ctx, dict(inp, k=rng.randrange(d)))
             Is = rng.choice(subsets(d)[d:-1])              # |I| in {2, 3}
             ai, bi = [a[i] for i in Is], [b[i] for i in Is]
+            if not all(straddles(x, y) for x, y in zip(ai, bi)):
+                sub = dict(spec=spec, I=Is, a=ai, b=bi)
+                p_by_definition(ctx, sub)
+                p_submargin(ctx, sub)
             kk = rng.randrange(len(Is))
             p_additivity_nd(ctx, dict(spec=spec, I=Is, a=ai, b=bi, k=kk, c=split_point(rng, ai[kk], bi[kk], exact)))
             p_whole_line_nd(ctx, dict(spec=spec, I=Is, a=ai, b=bi, k=rng.randrange(len(Is))))
@@ -909,7 +1261,7 @@ def run(ctx, oracle_only=False, factor=1):
     for rep in range(ctx.n(10, 80) * factor):
         d = rng.choice([2, 3])
         exact = rng.random() < 0.5
-        spec = draw_spec(rng, d, exact)
+        spec = draw_spec(rng, d, exact, nonexch=True)
         pats = tuple(rng.choice("-+0") for _ in range(d))
         a, b = draw_rect(rng, pats, exact)
         I = list(range(d))
